@@ -5,3 +5,4 @@ import NdnProofs.Props.C12
 #print axioms Ndn.C12.check_key_must_match
 #print axioms Ndn.C12.check_key_must_match_alone
 #print axioms Ndn.C12.check_ignores_implicit_digest
+#print axioms Ndn.C12.check_iff_compiled
